@@ -42,7 +42,7 @@ Section Proofs2.
   Proof.
     intros HI. unfold Model.step. destruct (pcl l) as [|j acc]; [intros H; inversion H; subst; exact HI|].
     destruct (todo l) as [|o rest]; [discriminate|].
-    destruct o as [kd key0|kd key0|kd key0|kd p| |kd|kd]; cbv zeta.
+    destruct o as [kd key0|kd key0|kd key0|kd p| |kd|kd|kd key0]; cbv zeta.
     - destruct (find _ _) eqn:F.
       + intros H; inversion H; subst. apply Inv_add_ret. exact HI.
       + destruct j; intros H; inversion H; subst; [exact HI|].
@@ -62,6 +62,10 @@ Section Proofs2.
     - destruct (nth_error _ _) as [[kd' i]|] eqn:P.
       + intros H. apply sweep_next_reg in H. subst. exact HI.
       + intros H; inversion H; subst; exact HI.
+    - destruct (find _ _) eqn:F.
+      + intros H; inversion H; subst. apply Inv_add_ret. exact HI.
+      + destruct j; intros H; inversion H; subst; [exact HI|].
+        apply Inv_add_ret. apply insert_Inv; assumption.
   Qed.
 
   (* ---- the initial registry ---- *)
@@ -192,7 +196,7 @@ Section Proofs2.
         { apply Hn. apply in_map_iff. exists e. split; [reflexivity|]. apply filter_In. split; [exact He|]. rewrite Fe. reflexivity. }
         cbn [is_remove] in X. rewrite kind_eqb_refl, K in X. discriminate.
       - cbn [log filter_shard add_log]. rewrite log_put. apply RetSame_nonret; [exact HQ|apply NR]. }
-    destruct o as [kd key0|kd key0|kd key0|kd p| |kd|kd]; cbv zeta.
+    destruct o as [kd key0|kd key0|kd key0|kd p| |kd|kd|kd key0]; cbv zeta.
     - destruct (find _ _) as [e|] eqn:F.
       + intros H; inversion H; subst. destruct (lookup_some hash keq k r kd key0 e F) as [He Ke].
         assert (Hh : has keq (abs r kd) key0 (snd e)) by (exists e; auto).
@@ -242,5 +246,26 @@ Section Proofs2.
     - destruct (nth_error _ _) as [[kd' i]|] eqn:P.
       + intros H. apply sweep_next_reg in H. subst. auto.
       + intros H; inversion H; subst; auto.
+    - destruct (find _ _) as [e|] eqn:F.
+      + intros H; inversion H; subst. destruct (lookup_some hash keq k r kd key0 e F) as [He Ke].
+        assert (Hh : has keq (abs r kd) key0 (snd e)) by (exists e; auto).
+        split; [apply RetLive_ret; assumption|].
+        cbn [log add_log app]. apply RetSame_ret; try assumption. intros key1. apply (I_uniq _ _ _ _ HI).
+      + destruct j; intros H; inversion H; subst; [auto|].
+        set (i := ix (hash key0)) in *.
+        assert (L : i < length (shards_of r kd)) by (rewrite (I_len _ _ _ _ HI); apply ix_lt).
+        assert (HI1 : Inv (insert r kd i key0)) by (apply insert_Inv; assumption).
+        assert (HP1 : RetLive (insert r kd i key0)).
+        { eapply RetLive_nonret; [exact HP|cbn [log insert add_log bump_sid]; rewrite log_put; reflexivity|repeat constructor|].
+          intros kd1 key1 s Hh _. unfold insert. rewrite abs_add_log, abs_bump.
+          apply has_survives_put; [exact Hh| |exact L]. intros e He _ _. apply in_app_iff. left. exact He. }
+        assert (HQ1 : RetSame (log (insert r kd i key0))).
+        { cbn [log insert add_log bump_sid]. rewrite log_put. apply (RetSame_nonret (log r) [EvCreate kd key0 (next_sid r)]); [exact HQ|repeat constructor]. }
+        assert (Hh : has keq (abs (insert r kd i key0) kd) key0 (next_sid r)).
+        { exists (key0, next_sid r). split; [|split; [|reflexivity]].
+          - unfold insert. rewrite abs_add_log, abs_bump. apply in_put_new; [exact L|]. apply in_app_iff. right. left. reflexivity.
+          - cbn [fst]. apply keq_refl. }
+        split; [apply RetLive_ret; assumption|].
+        cbn [log add_log app]. apply RetSame_ret; try assumption. intros key1. apply (I_uniq _ _ _ _ HI1).
   Qed.
 End Proofs2.
